@@ -11,9 +11,14 @@ func VerifMurmur2(data []byte) uint32 { return murmur2(data) }
 // VerifLoadCachedPartitions exposes loadCachedPartitions.
 func VerifLoadCachedPartitions(n int) []int { return loadCachedPartitions(n) }
 
-// VerifSetRoundRobinCounter places a RoundRobin balancer at a given call count.
-func VerifSetRoundRobinCounter(rr *RoundRobin, c uint32) {
+// VerifSetRoundRobinCalls places a RoundRobin balancer where it is after `calls` calls with a list of n partitions.
+func VerifSetRoundRobinCalls(rr *RoundRobin, calls uint64, n int) {
 	rr.mutex.Lock()
-	rr.counter = c
-	rr.mutex.Unlock()
+	defer rr.mutex.Unlock()
+	chunk := uint64(1)
+	if rr.ChunkSize > 1 {
+		chunk = uint64(rr.ChunkSize)
+	}
+	rr.index = int((calls / chunk) % uint64(n))
+	rr.count = int(calls % chunk)
 }
